@@ -60,6 +60,21 @@ theorem step_frame_nostack (g) (h h' : Heap) (op : Op) (r : Nat) (hns : ∀ l, o
     simp [getImg] at hr
     subst hr
     exact frame_set (frame_append _ _) (by simp) _
+  | copyRebind a sh vs =>
+    ex_split hs; all_goals cases hs
+    all_goals exact frame_set (frame_append' (frame_append _ _) _) (by omega) _
+  | derive a sh vs => ex_split hs; all_goals cases hs; exact frame_append' (frame_append _ _) _
+  | astypeClass a fs => ex_split hs; all_goals cases hs; exact frame_append' (frame_append _ _) _
+  | toMono a k cv =>
+    ex_split hs; all_goals cases hs
+    all_goals first
+      | exact frame_append' (frame_append' (frame_set (frame_append' (frame_append _ _) _) (by omega) _) _) _
+      | exact frame_append' (frame_append' (frame_append _ _) _) _
+  | reduceAxis a ax sh vs no => ex_split hs; all_goals cases hs; exact frame_append' (frame_append _ _) _
+  | extrude a ht num no => ex_split hs; all_goals cases hs; exact frame_append' (frame_append _ _) _
+  | superpose l sh vs nd no => ex_split hs; all_goals cases hs; exact frame_append' (frame_append _ _) _
+  | measure args v => ex_split hs; all_goals cases hs; exact frame_append _ _
+  | arrMap a vs => ex_split hs; all_goals cases hs; exact frame_append _ _
   | weightImg a w rz => 
     ex_split hs; all_goals cases hs
     all_goals exact frame_set (frame_append' (frame_append _ _) _) (by omega) _
@@ -72,44 +87,56 @@ theorem getImg_lt {h : Heap} {s : Nat} {r} (hg : getImg h s = .ok r) : s < h.len
   · rename_i hh; exact (List.getElem?_eq_some_iff.mp hh).1
   · contradiction
 
-theorem appendDate_spec {h1 h2 : Heap} {d dA : Nat} {dS dI dV : Val}
-    (ha : appendDate h1 d dS dI = .ok (h2, dA, dV)) :
-    h1.length ≤ h2.length ∧ (dA = d ∨ h1.length ≤ dA) ∧
-      ∀ a, a < h1.length → a ≠ d → h2[a]? = h1[a]? := by
+theorem appendDate_spec {h1 h2 : Heap} {dA : Nat} {dS dI dV : Val}
+    (ha : appendDate h1 dS dI = .ok (h2, dA, dV)) :
+    ∃ v, h2 = h1 ++ [v] ∧ v.refs = [] ∧ dA = h1.length := by
   unfold appendDate at ha
   split at ha
   all_goals first | contradiction | skip
   all_goals cases ha
-  all_goals refine ⟨by simp, by simp, fun a ha hne => ?_⟩
-  all_goals first
-    | exact List.getElem?_append_left ha
-    | exact List.getElem?_set_ne (Ne.symm hne)
+  all_goals exact ⟨_, rfl, rfl, rfl⟩
 
-theorem appendTime_spec {h2 h3 : Heap} {t tA : Nat} {tS tI dV : Val} {off : Option Rat} {n : Nat} {rd : Option Rat}
-    {da : Bool} (ha : appendTime h2 t tS tI off n rd dV da = .ok (h3, tA)) :
-    h2.length ≤ h3.length ∧ (tA = t ∨ h2.length ≤ tA) ∧
-      ∀ a, a < h2.length → a ≠ t → h3[a]? = h2[a]? := by
-  unfold appendTime at ha
-  repeat' split at ha
+theorem timeFromDate_leaf {s : Bool} {n : Nat} {rd : Option Rat} {d v : Val}
+    (h : timeFromDate s n rd d = .ok v) : v.refs = [] := by
+  unfold timeFromDate at h
+  repeat' split at h
   all_goals first | contradiction | skip
-  all_goals cases ha
-  all_goals refine ⟨by simp, by simp, fun a ha hne => ?_⟩
   all_goals first
-    | exact List.getElem?_append_left ha
-    | exact List.getElem?_set_ne (Ne.symm hne)
+    | (cases h; rfl)
+    | (simp only [bind, Except.bind, pure, Except.pure] at h
+       split at h
+       · contradiction
+       · cases h; rfl)
+
+theorem appendTime_spec {h2 h3 : Heap} {tA : Nat} {tS tI dV : Val} {off : Option Rat} {n : Nat} {rd : Option Rat}
+    {da : Bool} (ha : appendTime h2 tS tI off n rd dV da = .ok (h3, tA)) :
+    ∃ v, h3 = h2 ++ [v] ∧ v.refs = [] ∧ tA = h2.length := by
+  unfold appendTime at ha
+  split at ha
+  · split at ha
+    · rename_i v hv
+      cases ha
+      exact ⟨v, rfl, timeFromDate_leaf hv, rfl⟩
+    · contradiction
+  · split at ha
+    all_goals first | contradiction | skip
+    all_goals cases ha
+    all_goals exact ⟨_, rfl, rfl, rfl⟩
 
 theorem appendRead_img {h : Heap} {s i : Nat} {x : AppendIn} (ha : appendRead h s i = .ok x) :
-    getImg h s = .ok x.rs := by
+    getImg h s = .ok x.rs ∧ x.newArr.refs = [] := by
   simp only [appendRead, bind, Except.bind, pure, Except.pure] at ha
   repeat' split at ha
   all_goals first | contradiction | skip
   cases ha
-  assumption
+  exact ⟨by assumption, rfl⟩
 
+/-- shape of the heap after `self.append(image)`: three new leaf cells (stacked array, date list, time list /
+value) and the rebound attributes of `self`; dims and origin of `self` are kept -/
 theorem append_spec {h h1 : Heap} {s i : Nat} {off : Option Rat} (ha : append h s i off = .ok h1) :
-    ∃ rs rs', getImg h s = .ok rs ∧ getImg h1 s = .ok rs' ∧ h.length ≤ h1.length ∧
-      (rs'.date = rs.date ∨ h.length ≤ rs'.date) ∧ (rs'.time = rs.time ∨ h.length ≤ rs'.time) ∧
-      (∀ a, a < h.length → a ≠ s → a ≠ rs.date → a ≠ rs.time → h1[a]? = h[a]?) := by
+    ∃ (rs : ImgRec) (v1 v2 v3 : Val) (tn : Nat), getImg h s = .ok rs ∧ v1.refs = [] ∧ v2.refs = [] ∧ v3.refs = [] ∧
+      h1 = (h ++ [v1, v2, v3]).set s (.img { rs with arr := h.length, series := true, date := h.length + 1,
+                                                        time := h.length + 2, timeNum := tn }) := by
   unfold append at ha
   split at ha; · contradiction
   rename_i x hx
@@ -118,51 +145,35 @@ theorem append_spec {h h1 : Heap} {s i : Nat} {off : Option Rat} (ha : append h 
   split at ha; · contradiction
   rename_i h3 tA ht
   cases ha
-  have hs := getImg_lt (appendRead_img hx)
-  obtain ⟨l2, o2, f2⟩ := appendDate_spec hd
-  obtain ⟨l3, o3, f3⟩ := appendTime_spec ht
-  simp only [List.length_append, List.length_singleton] at l2 o2 f2
-  refine ⟨x.rs, { x.rs with arr := h.length, series := true, date := dA, time := tA,
-                                 timeNum := x.rs.timeNum + x.ri.timeNum }, appendRead_img hx, ?_, ?_, ?_, ?_, ?_⟩
-  · simp only [getImg]
-    rw [List.getElem?_set_self (by omega)]
-  · simp; omega
-  · simp only; rcases o2 with h | h
-    · exact Or.inl h
-    · exact Or.inr (by omega)
-  · simp only; rcases o3 with h | h
-    · exact Or.inl h
-    · exact Or.inr (by omega)
-  · intro a ha hs' hd' ht'
-    rw [List.getElem?_set_ne (Ne.symm hs'), f3 a (by omega) ht', f2 a (by omega) hd']
-    exact List.getElem?_append_left ha
+  obtain ⟨v2, rfl, l2, rfl⟩ := appendDate_spec hd
+  obtain ⟨v3, rfl, l3, rfl⟩ := appendTime_spec ht
+  refine ⟨x.rs, x.newArr, v2, v3, x.rs.timeNum + x.ri.timeNum, (appendRead_img hx).1, (appendRead_img hx).2, l2, l3, ?_⟩
+  simp [List.append_assoc]
 
-/-- the image `s` and its date/time lists live above `n` -/
-def Owned (n : Nat) (h : Heap) (s : Nat) : Prop :=
-  ∃ r, getImg h s = .ok r ∧ n ≤ s ∧ n ≤ r.date ∧ n ≤ r.time
+theorem append_frame_self {h h1 : Heap} {s i : Nat} {off : Option Rat} (ha : append h s i off = .ok h1) :
+    h.length ≤ h1.length ∧ ∀ a, a < h.length → a ≠ s → h1[a]? = h[a]? := by
+  obtain ⟨rs, v1, v2, v3, tn, _, _, _, _, rfl⟩ := append_spec ha
+  refine ⟨by simp, fun a ha hne => ?_⟩
+  rw [List.getElem?_set_ne (Ne.symm hne)]
+  exact List.getElem?_append_left ha
 
+/-- appending to an object allocated after `h0` leaves `h0` untouched -/
 theorem append_owned {h0 h h1 : Heap} {s i : Nat} {off : Option Rat}
-    (f : Frame h0 h) (o : Owned h0.length h s) (ha : append h s i off = .ok h1) :
-    Frame h0 h1 ∧ Owned h0.length h1 s := by
-  obtain ⟨rs, rs', g, g', l, od, ot, fr⟩ := append_spec ha
-  obtain ⟨r, gr, hs, hd, ht⟩ := o
-  rw [g] at gr; cases gr
-  refine ⟨⟨by have := f.1; omega, fun a ha => ?_⟩, rs', g', hs, ?_, ?_⟩
-  · rw [fr a (by have := f.1; omega) (by omega) (by omega) (by omega)]
-    exact f.2 a ha
-  · have := f.1; rcases od with h | h <;> omega
-  · have := f.1; rcases ot with h | h <;> omega
+    (f : Frame h0 h) (hs : h0.length ≤ s) (ha : append h s i off = .ok h1) : Frame h0 h1 := by
+  obtain ⟨l, fr⟩ := append_frame_self ha
+  refine ⟨by have := f.1; omega, fun a ha' => ?_⟩
+  rw [fr a (by have := f.1; omega) (by omega)]
+  exact f.2 a ha'
 
-theorem appendAll_owned {h0 : Heap} {s : Nat} : ∀ (is : List Nat) {h h1 : Heap},
-    Frame h0 h → Owned h0.length h s → appendAll h s is = .ok h1 → Frame h0 h1 ∧ Owned h0.length h1 s
-  | [], h, h1, f, o, ha => by
-    simp only [appendAll] at ha; cases ha; exact ⟨f, o⟩
-  | i :: is, h, h1, f, o, ha => by
+theorem appendAll_owned {h0 : Heap} {s : Nat} (hs : h0.length ≤ s) : ∀ (is : List Nat) {h h1 : Heap},
+    Frame h0 h → appendAll h s is = .ok h1 → Frame h0 h1
+  | [], h, h1, f, ha => by
+    simp only [appendAll] at ha; cases ha; exact f
+  | i :: is, h, h1, f, ha => by
     simp only [appendAll, bind, Except.bind] at ha
     split at ha; · contradiction
     rename_i hm hmid
-    obtain ⟨f', o'⟩ := append_owned f o hmid
-    exact appendAll_owned is f' o' ha
+    exact appendAll_owned hs is (append_owned f hs hmid) ha
 
 theorem stack_frame (g) (h h' : Heap) (l r : Nat) (hs : step g h (.stack l) = .ok (h', r)) : Frame h h' := by
   simp only [step, bind, Except.bind, pure, Except.pure] at hs
@@ -170,14 +181,7 @@ theorem stack_frame (g) (h h' : Heap) (l r : Nat) (hs : step g h (.stack l) = .o
   all_goals first | contradiction | skip
   cases hs
   rename_i _ cells hc _ hall
-  obtain ⟨r0, c0, c1, c2, c3, c4, rfl⟩ := copyCells_spec hc
-  refine (appendAll_owned _ (frame_append _ _) ⟨({ r0 with arr := (List.length h), dims := (List.length h + 1), origin := (List.length h + 2), date := (List.length h + 3), time := (List.length h + 4) } : ImgRec), ?_, ?_, ?_, ?_⟩ hall).1
-  · simp only [getImg]
-    rw [List.getElem?_append_right (by omega)]
-    simp
-  · omega
-  · simp
-  · simp
+  exact appendAll_owned (by omega) _ (frame_append _ _) hall
 
 theorem step_frame (g) (h h' : Heap) (op : Op) (r : Nat) (hs : step g h op = .ok (h', r)) : Frame h h' := by
   by_cases hst : ∃ l, op = .stack l
